@@ -198,14 +198,16 @@ Theorem c02_stream_roundtrips : forall e,
   sec_ok (enc_exlist meminfo_codec e MEMINFO_HDR 8) (dec_exlist meminfo_codec e true) (forallb wf_meminfo) /\
   (forall L, sec_ok (enc_flat L e) (dec_flat L e) (wf_flat L)) /\
   (forall L, 1 <= lsize L < 4294967296 -> icodec_ok (flat_codec L) e (wf_flat L)) /\
-  sec_ok (enc_raw e) (dec_raw e) (fun _ => true).
+  sec_ok (enc_raw e) (dec_raw e) (fun _ => true) /\
+  sec_ok (enc_handles e) (dec_handles e) wf_handles.
 Proof. exact stream_roundtrips. Qed.
 Print Assumptions c02_stream_roundtrips.
 
-(* The whole dump, all nineteen modelled streams at once (system info, threads with stacks and contexts,
+(* The whole dump, all twenty modelled streams at once (system info, threads with stacks and contexts,
    modules with CodeView records, MemoryList, Memory64List, exception, thread names, unloaded modules,
    memory info, misc info, Breakpad info, assertion info, thread info list, and - as byte-exact raw
-   streams - Linux cpuinfo / proc status / lsb-release / environ / maps / limits), any subset present, any number of items, either byte order, arbitrary
+   streams - Linux cpuinfo / proc status / lsb-release / environ / maps / limits; the handle data stream with
+   descriptors of either size and optional type/object names), any subset present, any number of items, either byte order, arbitrary
    leading directory entries: reading the serialized model returns exactly the model. *)
 Theorem c02_dump_roundtrip : forall e m,
   wf_model e m = true -> decode_dump (encode_dump e m) = Some (view_of e m).
@@ -343,7 +345,11 @@ Definition ex_model : model :=
      m_assertion := None;
      m_thread_info := Some [[1; 0; 0; 259; 132223104000000000; 0; 5; 7; 4198400; 15]];
      m_lx_cpuinfo := Some [112; 58; 48; 10]; m_lx_status := None; m_lx_lsb := Some []; m_lx_environ := None;
-     m_lx_maps := Some [48; 45; 49; 32; 114; 10]; m_lx_limits := None |}.
+     m_lx_maps := Some [48; 45; 49; 32; 114; 10]; m_lx_limits := None;
+     m_handles := Some (true, [ {| h_handle := 4; h_type := Some [70; 105; 108; 101]; h_object := None; h_attr := 0;
+                                   h_access := 1179785; h_hcount := 2; h_pcount := 65535 |};
+                                {| h_handle := 18446744073709551615; h_type := None; h_object := Some [19968]; h_attr := 1;
+                                   h_access := 0; h_hcount := 0; h_pcount := 0 |} ]) |}.
 
 Example c02_nonvacuous_model :
   wf_model LE ex_model = true /\ wf_model BE ex_model = true /\
